@@ -17,7 +17,9 @@ EmitEdge == PrintT(<<"EDGE", ToJson([s |-> Key(vec, el), a |-> act', t |-> Key(v
 
 (* Simulation mode (tlc -simulate): deep random behaviours of a model whose exhaustive exploration is out of reach; *)
 (* every step is printed with the number of the behaviour and its depth.                                          *)
-EmitSim == PrintT(<<"SIM", TLCGet("stats").traces, TLCGet("level"), ToJson(act')>>)
+(* TLC may evaluate the constraint for more than one candidate successor of a state before it settles on one; the    *)
+(* previous step (act, unprimed) is printed too, so that tools/vlib.py can tell which candidate was continued.         *)
+EmitSim == PrintT(<<"SIM", TLCGet("stats").traces, TLCGet("level"), ToJson(act), ToJson(act')>>)
 
 (* known-finding cuts: histories are cut BEFORE a step after which the real *)
 (* object's state is undefined (see DESIGN.md section 6); CutSteps is the  *)
